@@ -3,6 +3,7 @@ package vh
 import (
 	"fmt"
 	"math"
+	"net"
 	"reflect"
 	"regexp"
 	"sort"
@@ -248,6 +249,15 @@ func tags(n int) []any {
 // MakeTypes is the menu of the Make node.
 type mkNamedInt int16
 type mkNamedStr string
+type mkNamedByte uint8
+type mkNamedBytes []mkNamedByte
+type mkBytesHolder struct {
+	Ops  []mkNamedByte
+	Raw  []byte
+	Code mkNamedBytes
+	M    map[mkNamedByte][]mkNamedByte
+	IP   net.IP
+}
 type mkInner struct {
 	A int8
 	B string
@@ -312,27 +322,32 @@ var makeTypes = map[string]struct {
 	typ   reflect.Type
 	build func() *rapid.Generator[any]
 }{
-	"int":           {reflect.TypeOf(int(0)), func() *rapid.Generator[any] { return rapid.Make[int]().AsAny() }},
-	"uint64":        {reflect.TypeOf(uint64(0)), func() *rapid.Generator[any] { return rapid.Make[uint64]().AsAny() }},
-	"bool":          {reflect.TypeOf(false), func() *rapid.Generator[any] { return rapid.Make[bool]().AsAny() }},
-	"string":        {reflect.TypeOf(""), func() *rapid.Generator[any] { return rapid.Make[string]().AsAny() }},
-	"float64":       {reflect.TypeOf(float64(0)), func() *rapid.Generator[any] { return rapid.Make[float64]().AsAny() }},
-	"namedint":      {reflect.TypeOf(mkNamedInt(0)), func() *rapid.Generator[any] { return rapid.Make[mkNamedInt]().AsAny() }},
-	"namedstr":      {reflect.TypeOf(mkNamedStr("")), func() *rapid.Generator[any] { return rapid.Make[mkNamedStr]().AsAny() }},
-	"array":         {reflect.TypeOf([4]int8{}), func() *rapid.Generator[any] { return rapid.Make[[4]int8]().AsAny() }},
-	"array0":        {reflect.TypeOf([0]int{}), func() *rapid.Generator[any] { return rapid.Make[[0]int]().AsAny() }},
-	"slice":         {reflect.TypeOf([]uint16{}), func() *rapid.Generator[any] { return rapid.Make[[]uint16]().AsAny() }},
-	"slicenamed":    {reflect.TypeOf([]mkNamedInt{}), func() *rapid.Generator[any] { return rapid.Make[[]mkNamedInt]().AsAny() }},
-	"map":           {reflect.TypeOf(map[int8]string{}), func() *rapid.Generator[any] { return rapid.Make[map[int8]string]().AsAny() }},
-	"mapbool":       {reflect.TypeOf(map[bool]int{}), func() *rapid.Generator[any] { return rapid.Make[map[bool]int]().AsAny() }},
-	"mapboolstr":    {reflect.TypeOf(map[bool]string{}), func() *rapid.Generator[any] { return rapid.Make[map[bool]string]().AsAny() }},
-	"structmapbool": {reflect.TypeOf(mkMapHolder{}), func() *rapid.Generator[any] { return rapid.Make[mkMapHolder]().AsAny() }},
-	"ptr":           {reflect.TypeOf((*int)(nil)), func() *rapid.Generator[any] { return rapid.Make[*int]().AsAny() }},
-	"ptrptr":        {reflect.TypeOf((**uint8)(nil)), func() *rapid.Generator[any] { return rapid.Make[**uint8]().AsAny() }},
-	"struct":        {reflect.TypeOf(mkInner{}), func() *rapid.Generator[any] { return rapid.Make[mkInner]().AsAny() }},
-	"struct0":       {reflect.TypeOf(struct{}{}), func() *rapid.Generator[any] { return rapid.Make[struct{}]().AsAny() }},
-	"nested":        {reflect.TypeOf(mkOuter{}), func() *rapid.Generator[any] { return rapid.Make[mkOuter]().AsAny() }},
-	"rec":           {reflect.TypeOf(mkRec{}), func() *rapid.Generator[any] { return rapid.Make[mkRec]().AsAny() }},
+	"int":            {reflect.TypeOf(int(0)), func() *rapid.Generator[any] { return rapid.Make[int]().AsAny() }},
+	"uint64":         {reflect.TypeOf(uint64(0)), func() *rapid.Generator[any] { return rapid.Make[uint64]().AsAny() }},
+	"bool":           {reflect.TypeOf(false), func() *rapid.Generator[any] { return rapid.Make[bool]().AsAny() }},
+	"string":         {reflect.TypeOf(""), func() *rapid.Generator[any] { return rapid.Make[string]().AsAny() }},
+	"float64":        {reflect.TypeOf(float64(0)), func() *rapid.Generator[any] { return rapid.Make[float64]().AsAny() }},
+	"namedint":       {reflect.TypeOf(mkNamedInt(0)), func() *rapid.Generator[any] { return rapid.Make[mkNamedInt]().AsAny() }},
+	"namedstr":       {reflect.TypeOf(mkNamedStr("")), func() *rapid.Generator[any] { return rapid.Make[mkNamedStr]().AsAny() }},
+	"array":          {reflect.TypeOf([4]int8{}), func() *rapid.Generator[any] { return rapid.Make[[4]int8]().AsAny() }},
+	"array0":         {reflect.TypeOf([0]int{}), func() *rapid.Generator[any] { return rapid.Make[[0]int]().AsAny() }},
+	"slice":          {reflect.TypeOf([]uint16{}), func() *rapid.Generator[any] { return rapid.Make[[]uint16]().AsAny() }},
+	"slicenamed":     {reflect.TypeOf([]mkNamedInt{}), func() *rapid.Generator[any] { return rapid.Make[[]mkNamedInt]().AsAny() }},
+	"map":            {reflect.TypeOf(map[int8]string{}), func() *rapid.Generator[any] { return rapid.Make[map[int8]string]().AsAny() }},
+	"mapbool":        {reflect.TypeOf(map[bool]int{}), func() *rapid.Generator[any] { return rapid.Make[map[bool]int]().AsAny() }},
+	"mapboolstr":     {reflect.TypeOf(map[bool]string{}), func() *rapid.Generator[any] { return rapid.Make[map[bool]string]().AsAny() }},
+	"structmapbool":  {reflect.TypeOf(mkMapHolder{}), func() *rapid.Generator[any] { return rapid.Make[mkMapHolder]().AsAny() }},
+	"bytes":          {reflect.TypeOf([]byte{}), func() *rapid.Generator[any] { return rapid.Make[[]byte]().AsAny() }},
+	"slicenamedbyte": {reflect.TypeOf([]mkNamedByte{}), func() *rapid.Generator[any] { return rapid.Make[[]mkNamedByte]().AsAny() }},
+	"namedbytes":     {reflect.TypeOf(mkNamedBytes{}), func() *rapid.Generator[any] { return rapid.Make[mkNamedBytes]().AsAny() }},
+	"netip":          {reflect.TypeOf(net.IP{}), func() *rapid.Generator[any] { return rapid.Make[net.IP]().AsAny() }},
+	"bytesholder":    {reflect.TypeOf(mkBytesHolder{}), func() *rapid.Generator[any] { return rapid.Make[mkBytesHolder]().AsAny() }},
+	"ptr":            {reflect.TypeOf((*int)(nil)), func() *rapid.Generator[any] { return rapid.Make[*int]().AsAny() }},
+	"ptrptr":         {reflect.TypeOf((**uint8)(nil)), func() *rapid.Generator[any] { return rapid.Make[**uint8]().AsAny() }},
+	"struct":         {reflect.TypeOf(mkInner{}), func() *rapid.Generator[any] { return rapid.Make[mkInner]().AsAny() }},
+	"struct0":        {reflect.TypeOf(struct{}{}), func() *rapid.Generator[any] { return rapid.Make[struct{}]().AsAny() }},
+	"nested":         {reflect.TypeOf(mkOuter{}), func() *rapid.Generator[any] { return rapid.Make[mkOuter]().AsAny() }},
+	"rec":            {reflect.TypeOf(mkRec{}), func() *rapid.Generator[any] { return rapid.Make[mkRec]().AsAny() }},
 }
 
 var makeTypeNames = func() []string {
@@ -346,7 +361,7 @@ var makeTypeNames = func() []string {
 
 // makeFlatTypeNames: the types of the Make menu without pointers (the Go-syntax text of their values does not
 // contain addresses, so values of different runs can be compared as text)
-var makeFlatTypeNames = []string{"int", "uint64", "bool", "string", "float64", "namedint", "namedstr", "array", "array0", "slice", "slicenamed", "map", "mapbool", "mapboolstr", "structmapbool", "struct", "struct0"}
+var makeFlatTypeNames = []string{"int", "uint64", "bool", "string", "float64", "namedint", "namedstr", "array", "array0", "slice", "slicenamed", "map", "mapbool", "mapboolstr", "structmapbool", "struct", "struct0", "bytes", "slicenamedbyte", "namedbytes", "netip", "bytesholder"}
 
 // Build constructs the generator of the library under test described by s.
 func (s *GenSpec) Build(env *BuildEnv) *rapid.Generator[any] {
